@@ -152,6 +152,14 @@ CHECKS = {
         "DESIGN.md section 6 C17",
         "E3",
     ),
+    "C18": (
+        "exploration",
+        "exhaustive enumeration of configurations: every os.walk directory order (choice tree) x iteration-order policies x pre-populated output states x repeated runs in-process, 8 hash seeds through the real protocol.py in subprocesses, then import checks in fresh interpreters; plus generate+import of every valid program of the spec universe",
+        "All directory-order permutations and all stated iteration policies for each tree, byte-identical output required; every declared type checked in a fresh interpreter; every valid program of the E3 universe must generate and import.",
+        "Hash seeds limited to a block of 8 per run (block rotated by VERIF_SEED); os.walk and set/sorted ordering are owned through module attributes.",
+        "DESIGN.md section 6 C18",
+        "E2 + subprocess",
+    ),
     "C19": (
         "exploration",
         "bounded program x instance x operation-history enumeration on generated classes (setattr of every public name at every nesting level, caller-side list mutation, repeated serialize)",
